@@ -840,10 +840,12 @@ class Sim:
         elif k == 'ba':
             lw = self.lv_width(sc, s[1])
             val = self.eval_assign(sc, s[2], lw)
+            self.check_signed_store(sc, s[1], s[2], lw)
             self.store(sc, s[1], val, self.lv_indices(sc, s[1]))
         elif k == 'nba':
             lw = self.lv_width(sc, s[1])
             val = self.eval_assign(sc, s[2], lw)
+            self.check_signed_store(sc, s[1], s[2], lw)
             self.nba.append((sc, s[1], val, self.lv_indices(sc, s[1])))
         elif k == 'null':
             pass
@@ -971,6 +973,21 @@ class Sim:
     def eval_self(self, sc, e):
         w, s = self.size(sc, e)
         return self.eval(sc, e, w, s)
+
+    def check_signed_store(self, sc, lv, e, lw):
+        """domain guard: a value of 2**(w-1) or more stored into a signed variable (a Verilog integer) reads back negative:
+        outside the domain in which Python agrees (unsigned targets wrap like Wire.put does)"""
+        if not self.guard or lv[0] != 'id':
+            return
+        s = sc.sigs.get(lv[1])
+        if s is None or s.mem is not None:
+            return
+        try:
+            v = self.ideal(sc, e)
+        except Undefined:
+            return
+        if s.signed and not (-(1 << (lw - 1)) <= v < (1 << (lw - 1))):
+            self.domain_violations += 1
 
     def eval_assign(self, sc, e, lhs_width):
         w, s = self.size(sc, e)
